@@ -294,6 +294,7 @@ Section ParseOk.
   Variable V : variant.
   Variable R : registry.
   Variable clean : cleaner.
+  Variable refuse : bool.
   Hypothesis Hclean : forall n v, ok V (clean n v).
   Hypothesis HR : reg_known R = true.
 
@@ -393,7 +394,10 @@ Section ParseOk.
     - apply IH. intros a Ha. apply Hf. right. exact Ha.
   Qed.
 
-  Lemma ok_dict_to_stix2 : forall dec d nonstr ac version, ok V (dict_to_stix2 V R clean dec d nonstr ac version).
+  Lemma ok_refuse_custom : forall c ac kw, ok V (refuse_custom refuse c ac kw).
+  Proof. intros. unfold refuse_custom. repeat okstep. Qed.
+
+  Lemma ok_dict_to_stix2 : forall dec d nonstr ac version, ok V (dict_to_stix2 V R clean refuse dec d nonstr ac version).
   Proof.
     intros. unfold dict_to_stix2.
     apply ok_bind; [apply ok_py_in|intros has].
@@ -410,7 +414,8 @@ Section ParseOk.
       - eapply class_for_type_known; exact Hc2. }
     destruct c2 as [c|].
     - destruct d; try (apply ok_fail; reflexivity).
-      apply ok_seq; [apply ok_call_check|]. apply ok_seq; [apply ok_construct; apply Hk; reflexivity|apply ok_ret].
+      apply ok_seq; [apply ok_call_check|]. apply ok_seq; [apply ok_construct; apply Hk; reflexivity|].
+      apply ok_seq; [apply ok_refuse_custom|apply ok_ret].
     - destruct d; try (apply ok_fail; reflexivity).
       destruct ac; [apply ok_ret|].
       destruct (jlookup (us "extensions") m) as [e|]; [|apply ok_fail; reflexivity].
@@ -418,10 +423,10 @@ Section ParseOk.
       apply ok_bind; [apply ok_d2s_scan|intros b]. destruct b; [apply ok_ret|apply ok_fail; reflexivity].
   Qed.
 
-  Lemma ok_parse : forall dec x ac version, ok V (parse V R clean dec x ac version).
+  Lemma ok_parse : forall dec x ac version, ok V (parse V R clean refuse dec x ac version).
   Proof. intros. unfold parse. apply ok_bind; [apply ok_get_dict|intros; apply ok_dict_to_stix2]. Qed.
 
-  Lemma ok_parse_observable : forall dec x vr ac version, ok V (parse_observable V R clean dec x vr ac version).
+  Lemma ok_parse_observable : forall dec x vr ac version, ok V (parse_observable V R clean refuse dec x vr ac version).
   Proof.
     intros. unfold parse_observable.
     apply ok_bind; [apply ok_get_dict|intros d].
@@ -433,7 +438,8 @@ Section ParseOk.
     apply ok_bind; [apply ok_type_of|intros ty].
     apply ok_bind_in; [apply ok_class_for_type|intros c Hc].
     destruct c as [c|].
-    - apply ok_seq; [apply ok_call_check|]. apply ok_seq; [apply ok_construct; eapply class_for_type_known; exact Hc|apply ok_ret].
+    - apply ok_seq; [apply ok_call_check|]. apply ok_seq; [apply ok_construct; eapply class_for_type_known; exact Hc|].
+      apply ok_seq; [apply ok_refuse_custom|apply ok_ret].
     - destruct ac; [apply ok_ret|apply ok_fail; reflexivity].
   Qed.
 End ParseOk.
@@ -476,12 +482,13 @@ Section StoreFacts.
   Variable V : variant.
   Variable R : registry.
   Variable clean : cleaner.
+  Variable refuse : bool.
   Variable dec : decoder.
 
   Lemma store_add_one_cases : forall st x version st' a,
-    In (st', a) (store_add_one V R clean dec st x version) ->
-    (a = Added /\ st' = (st ++ [x])%list /\ exists p, In (Val p) (parse V R clean dec x true version)) \/
-    (exists e s, a = Escaped e s /\ st' = st /\ In (Exc e s) (parse V R clean dec x true version)).
+    In (st', a) (store_add_one V R clean refuse dec st x version) ->
+    (a = Added /\ st' = (st ++ [x])%list /\ exists p, In (Val p) (parse V R clean refuse dec x true version)) \/
+    (exists e s, a = Escaped e s /\ st' = st /\ In (Exc e s) (parse V R clean refuse dec x true version)).
   Proof.
     intros st x version st' a Hin. unfold store_add_one in Hin. apply in_map_iff in Hin.
     destruct Hin as [r [Hr Hin]]. destruct r as [p|e s]; inversion Hr; subst.
@@ -490,12 +497,12 @@ Section StoreFacts.
   Qed.
 
   Lemma store_add_list_prefix : forall xs st version st' a,
-    In (st', a) (store_add_list V R clean dec st xs version) ->
+    In (st', a) (store_add_list V R clean refuse dec st xs version) ->
     exists k, (k <= List.length xs)%nat /\ st' = (st ++ firstn k xs)%list /\
-              Forall (fun x => exists p, In (Val p) (parse V R clean dec x true version)) (firstn k xs) /\
+              Forall (fun x => exists p, In (Val p) (parse V R clean refuse dec x true version)) (firstn k xs) /\
               match a with
               | Added => k = List.length xs
-              | Escaped e s => exists x, nth_error xs k = Some x /\ In (Exc e s) (parse V R clean dec x true version)
+              | Escaped e s => exists x, nth_error xs k = Some x /\ In (Exc e s) (parse V R clean refuse dec x true version)
               end.
   Proof.
     induction xs as [|x r IH]; intros st version st' a Hin; simpl in Hin.
